@@ -4,6 +4,8 @@
 // apply() = precond().apply followed by project() (bitwise); operator()(f,x) and operator()(A,f,x) return a solution whose
 // true residual w.r.t. the ORIGINAL system (long double) is the reported one up to the residual gap of the Krylov recurrences.
 // Preconditioners: a known linear map / scaled identity (vf18::inner) and a real amg.
+// Calibration aid: with VF_C18_CALIB=1 the projection-bound assertions only record the worst defect/bound ratio (printed at exit);
+// never set by bin/check.
 #include <amgcl/backend/builtin.hpp>
 #include <amgcl/adapter/crs_tuple.hpp>
 #include <amgcl/deflated_solver.hpp>
@@ -84,7 +86,20 @@ static LV project_bound(const DeflCase &d, const LV &b, const LV &x0, const LV &
     LV dr = scalev(g, addv(absv(b), matvec(aA, absv(x0))));               // residual in double
     LV gq = matvec(Zt, r0);
     LV dg = addv(scalev(g, matvec(aZt, absv(r0))), matvec(aZt, dr));       // inner products
-    LD dE = addm(scalem(2 * g, matmul(aZt, matmul(aA, aZ))), scalem(8 * k * U, aE)); // E assembled in double + LU backward error
+    // E is assembled in double (|dE| <= 2 g |Z|^T|A||Z|) and inverted by LU with partial pivoting followed by triangular solves
+    // with the unit vectors: every column of the computed inverse solves (E + dE_j) x_j = e_j with |dE_j| <= gamma_{3k} P^T |L||U|
+    // (Higham, ASNA Thm 9.4).  |L||U| is NOT bounded by a multiple of |E| entry by entry (zero or cancelling entries of E), which is
+    // what the first version of this bound assumed; it is formed here from a long-double LU with the same pivoting rule.
+    LD LU = E; std::vector<ptrdiff_t> perm(k);
+    for (int i = 0; i < k; ++i) perm[i] = i;
+    for (int c0 = 0; c0 < k; ++c0) {
+        int pv = c0; for (int i = c0 + 1; i < k; ++i) if (std::abs(LU(perm[i], c0)) > std::abs(LU(perm[pv], c0))) pv = i;
+        std::swap(perm[c0], perm[pv]);
+        for (int i = c0 + 1; i < k; ++i) { ld f = LU(perm[i], c0) / LU(perm[c0], c0); LU(perm[i], c0) = f; for (int j = c0 + 1; j < k; ++j) LU(perm[i], j) -= f * LU(perm[c0], j); }
+    }
+    LD aLU(k, k); // P^T |L||U|, rows back in the original order
+    for (int i = 0; i < k; ++i) for (int j = 0; j < k; ++j) { ld sum = 0; for (int m = 0; m <= std::min(i, j); ++m) sum += (m == i ? 1 : std::abs(LU(perm[i], m))) * std::abs(LU(perm[m], j)); aLU(perm[i], j) = sum; }
+    LD dE = addm(scalem(2 * g, matmul(aZt, matmul(aA, aZ))), scalem(3 * k * U / (1 - 3 * k * U), aLU));
     LV dd = addv(addv(matvec(aEi, dg), matvec(aEi, matvec(dE, matvec(aEi, absv(gq))))), scalev((k + 2) * U, matvec(aEi, absv(gq))));
     LV dx = scalev((k + 3) * U, addv(absv(x0), addv(absv(x1), matvec(aZ, matvec(aEi, absv(gq))))));
     LV bd = addv(matvec(aE, dd), matvec(aZt, matvec(aA, dx)));
@@ -93,6 +108,8 @@ static LV project_bound(const DeflCase &d, const LV &b, const LV &x0, const LV &
 }
 
 static void prop_deflated(Tape &t, Ctx &c);
+static double g_worst = 0; // calibration aid: worst |z^T r| / bound seen by this process (VF_C18_CALIB=1 prints it)
+struct CalibPrinter { ~CalibPrinter() { if (getenv("VF_C18_CALIB")) fprintf(stderr, "worst projection defect/bound %.4g\n", g_worst); } } g_calib_printer;
 
 static std::vector<Prop> props() {
     return {
@@ -113,8 +130,9 @@ static void deflated_checks(Tape &t, Ctx &c, const DeflCase &d, const Obj &S, co
         S.project(B, X);
         std::vector<double> x1(X.data(), X.data() + n);
         LV q = ztr(tolv(b), tolv(x1)), bd = project_bound(d, tolv(b), tolv(x0), tolv(x1));
+        for (int j = 0; j < k; ++j) if (bd[j] > 0) g_worst = std::max(g_worst, static_cast<double>(std::abs(q[j]) / bd[j]));
         for (int j = 0; j < k; ++j)
-            VF_REQUIRE(std::abs(q[j]) <= bd[j], "project: z_" << j << "^T (b - A x) = " << static_cast<double>(q[j]) << " after projection (bound " << static_cast<double>(bd[j]) << "), before: " << static_cast<double>(ztr(tolv(b), tolv(x0))[j]));
+            VF_REQUIRE(getenv("VF_C18_CALIB") || std::abs(q[j]) <= bd[j], "project: z_" << j << "^T (b - A x) = " << static_cast<double>(q[j]) << " after projection (bound " << static_cast<double>(bd[j]) << "), before: " << static_cast<double>(ztr(tolv(b), tolv(x0))[j]));
         // the projection changes x only inside span(Z): x1 - x0 = Z d with d = E^-1 Z^T r0 (checked through the dense formula)
         LD Z(n, k); for (int j = 0; j < k; ++j) for (ptrdiff_t i = 0; i < n; ++i) Z(i, j) = d.Z[j * n + i];
         bool ok; LD Ei = inverse(matmul(transposed(Z), matmul(d.dA, Z)), ok);
@@ -137,8 +155,9 @@ static void deflated_checks(Tape &t, Ctx &c, const DeflCase &d, const Obj &S, co
         std::vector<double> x1(X.data(), X.data() + n), x0(X0.data(), X0.data() + n);
         if (precond_ref) for (ptrdiff_t i = 0; i < n; ++i) VF_REQUIRE(x0[i] == precond_ref(b, i), "precond().apply is not the preconditioner handed in");
         LV q = ztr(tolv(b), tolv(x1)), bd = project_bound(d, tolv(b), tolv(x0), tolv(x1));
+        for (int j = 0; j < k; ++j) if (bd[j] > 0) g_worst = std::max(g_worst, static_cast<double>(std::abs(q[j]) / bd[j]));
         for (int j = 0; j < k; ++j)
-            VF_REQUIRE(std::abs(q[j]) <= bd[j], "apply: z_" << j << "^T (b - A x) = " << static_cast<double>(q[j]) << " (bound " << static_cast<double>(bd[j]) << ")");
+            VF_REQUIRE(getenv("VF_C18_CALIB") || std::abs(q[j]) <= bd[j], "apply: z_" << j << "^T (b - A x) = " << static_cast<double>(q[j]) << " (bound " << static_cast<double>(bd[j]) << ")");
         // and it equals project(precond(b)) bitwise
         amgcl::backend::numa_vector<double> X2(x0);
         S.project(B, X2);
